@@ -190,12 +190,14 @@ Proof.
     unfold contrib_s in HS. rewrite (eq_trans (f_equal (fun l => lookup l sid) Es) (lookup_del_same _ _)), Hl in HS. rewrite holds_stream_val in HS. unfold rule_is in HS. rewrite H0 in HS. cbn [andb b2n] in HS.
     change (tasks s') with (tasks s). change (subs s') with (subs s). change (adds s') with (adds s). destruct (lookup (subs s) r0); lia.
   - (* clone: excluded *) exfalso. eapply Hnc. reflexivity.
-  - (* async drop starts: still a holder *)
-    destruct H as [Hl Hd]. set (s' := with_drops _ _).
-    assert (Hin : forall sid', in_r1 s' sid' = in_r1 s sid').
-    { intros sid'. unfold in_r1. change (drops s') with (put (drops s) sid R0). destruct (Nat.eq_dec sid' sid) as [->|Hne]; [now rewrite lookup_put_same, Hd | now rewrite lookup_put_other]. }
-    intros r0. specialize (C r0). unfold holders in *. change (streams s') with (streams s). rewrite (S_pred s s' r0 Hin).
-    change (tasks s') with (tasks s). change (subs s') with (subs s). change (adds s') with (adds s). exact C.
+  - (* async drop starts: the receiver is released, the stream's reference passes to the remove_match that follows *)
+    destruct H as [Hl Hd]. set (s' := with_tasks _ _). assert (Es : streams s' = del (streams s) sid) by reflexivity. assert (Ed : drops s' = drops s) by reflexivity.
+    intros r0. specialize (C r0). unfold holders in *.
+    pose proof (S_change s s' sid r0 Ks Ks' ltac:(rewrite Es; apply del_del) (fun sid' _ => in_r1_drops s s' Ed sid')) as HS.
+    unfold contrib_s in HS. rewrite (eq_trans (f_equal (fun l => lookup l sid) Es) (lookup_del_same _ _)), Hl in HS. rewrite holds_stream_val in HS. unfold in_r1 in HS. rewrite Hd in HS. cbn [negb] in HS.
+    rewrite andb_true_r, (rule_is_eqb r0 r st H0) in HS.
+    change (tasks s') with (tasks s ++ [(r, R0)]). rewrite cnt_app, cnt_one. rewrite holds_task_val, andb_true_r.
+    change (subs s') with (subs s). change (adds s') with (adds s). destruct (lookup (subs s) r0); lia.
   - (* async drop of an unfiltered stream *)
     destruct H as [Hl Hd]. set (s' := bury _ _ _). assert (Es : streams s' = del (streams s) sid) by reflexivity. assert (Ed : drops s' = drops s) by reflexivity.
     intros r0. specialize (C r0). unfold holders in *.
@@ -338,10 +340,7 @@ Proof.
   - (* drop *) cbn [streams with_tasks] in Hl. rewrite streams_bury in Hl. apply in_del_lookup in Hl. eapply G; eassumption.
   - rewrite streams_bury in Hl. apply in_del_lookup in Hl. eapply G; eassumption.
   - exfalso. eapply Hnc. reflexivity.
-  - (* async drop starts *) destruct H as [Hl0 Hd]. cbn [streams subs with_drops] in Hl, He.
-    assert (Hin' : in_r1 s sid0 = false).
-    { unfold in_r1 in *. cbn [drops with_drops] in Hin. destruct (Nat.eq_dec sid0 sid) as [->|Hne]; [now rewrite Hd | now rewrite lookup_put_other in Hin]. }
-    eapply G; eassumption.
+  - (* async drop starts: as drop *) cbn [streams with_tasks] in Hl. rewrite streams_bury in Hl. apply in_del_lookup in Hl. eapply G; eassumption.
   - rewrite streams_bury in Hl. apply in_del_lookup in Hl. eapply G; eassumption.
   - (* async drop, subs, done *)
     pose proof (rm_apply_frame _ _ _ _ H3) as (_ & Estr & _ & Edrp & _). cbn [streams subs with_drops] in Hl, He. rewrite streams_bury, Estr in Hl.
@@ -479,9 +478,10 @@ Proof.
   - destruct H as [Hl Hd]. intros Hr. left. revert Hr. eapply (Hdel _ sid); try reflexivity; eassumption.
   - (* clone *) destruct H as [Hl Hd]. intros Hr. left. revert Hr. eapply (Hput _ sid2); try reflexivity.
     unfold fresh in H0. apply (live_no_drop matches); [assumption|]. destruct (lookup (streams s) sid2); [discriminate | reflexivity].
-  - (* async drop starts *) destruct H as [Hl Hd]. intros [(sid' & st' & Hd' & Hs' & Hr')|Hr]; left; [left | now right].
-    simp. destruct (Nat.eq_dec sid' sid) as [->|Hne]; [rewrite lookup_put_same in Hd'; discriminate|].
-    rewrite lookup_put_other in Hd' by assumption. exists sid', st'. tauto.
+  - (* async drop starts: as drop rule *) destruct H as [Hl Hd]. intros [(sid' & st' & Hd' & Hs' & Hr')|Hr]; left.
+    + left. simp. exists sid', st'. repeat split; try assumption. destruct (Nat.eq_dec sid' sid) as [->|Hne]; [now rewrite lookup_del_same in Hs'|].
+      now rewrite lookup_del_other in Hs'.
+    + right. simp. now apply in_app_r0 in Hr.
   - destruct H as [Hl Hd]. intros Hr. left. revert Hr. eapply (Hdel _ sid); try reflexivity; eassumption.
   - (* async drop, subs, done *) rm_tables. intros [(sid' & st' & Hd' & Hs' & Hr')|Hr]; left; simp.
     + left. rewrite Edrp in Hd'. rewrite Estr in Hs'. destruct (Nat.eq_dec sid' sid) as [->|Hne]; [now rewrite lookup_del_same in Hd'|].
